@@ -128,6 +128,13 @@ def _sync(H, sh):
                                 credit_out=0, pub_term=False, peer_cancel=False, fut_done=False, credit_in=0,
                                 has_pub=bool(o.get('pub')), has_sub=bool(o.get('sub')), peer_opened=o['kind'] in ('rrResp', 'stResp', 'chResp'))
             i = sh.info[oid]
+            did = getattr(o.get('sub'), 'did_in_subscribe', None)
+            if did:
+                if did[0] == 'SCN':
+                    i['we_cancel'] = True
+                    i['cancels'] = i.get('cancels', 0) + 1
+                else:
+                    i['credit_out'] += did[1]
             if oid in sh.early_cancel:
                 i['we_cancel'] = True
             i['credit_out'] += sh.early_credit.pop(oid, 0)
@@ -163,13 +170,18 @@ def choose_one(rng, H, sh, profile):
     w((3, lambda: {'op': 'RR', 'data': sh.data(rng, rng.choice([0, 1, 2]))}))
     w((1, lambda: {'op': 'FNF', 'data': sh.data(rng, 1)}))
     w((1, lambda: {'op': 'MP', 'data': sh.fresh(1)}))
-    w((3, lambda: {'op': 'RS', 'data': sh.data(rng, rng.choice([0, 1])), 'n': rng.choice([1, 1, 2, 3, 2 ** 31 - 1] + ([0] if rng.random() < 0.1 else [])), 'sub': rng.random() < 0.85}))
-    w((3, lambda: {'op': 'RC', 'data': sh.data(rng, 1), 'n': rng.choice([1, 2, 3, 2 ** 31 - 1]), 'pub': rng.random() < 0.7, 'sub': rng.random() < 0.85}))
+    def insub(s):
+        # the application's subscriber asks for more, or cancels, inside on_subscribe
+        if s.get('sub', True) and s.get('n', 1) > 0 and rng.random() < 0.15:
+            s['insub'] = rng.choice([['SRQ', rng.choice([1, 2, 5])], ['SRQ', 1], ['SCN']])
+        return s
+    w((3, lambda: insub({'op': 'RS', 'data': sh.data(rng, rng.choice([0, 1])), 'n': rng.choice([1, 1, 2, 3, 2 ** 31 - 1] + ([0] if rng.random() < 0.1 else [])), 'sub': rng.random() < 0.85})))
+    w((3, lambda: insub({'op': 'RC', 'data': sh.data(rng, 1), 'n': rng.choice([1, 2, 3, 2 ** 31 - 1]), 'pub': rng.random() < 0.7, 'sub': rng.random() < 0.85})))
     for oid, i in sh.info.items():
         k = i['kind']
         if k in ('stReq', 'chReq'):
             if not i['subscribed']:
-                w((3, lambda oid=oid: {'op': 'SUB', 'oid': oid}))
+                w((3, lambda oid=oid: insub({'op': 'SUB', 'oid': oid})))
             else:
                 if not i['we_cancel'] and not i['peer_term']:
                     w((2, lambda oid=oid: {'op': 'SRQ', 'oid': oid, 'n': rng.choice([1, 2, 5])}))
@@ -319,6 +331,7 @@ def note(sh, H, s):
     i = sh.info.get(oid)
     if op in ('RS', 'RC'):
         sh.last_new = s
+        # (what the subscriber did inside on_subscribe is read off the object when the shadow meets it: _sync)
     if i is None:
         # an object created earlier in the same group: remembered until the shadow meets it
         if op in ('SCN', 'FCN'):
@@ -326,6 +339,12 @@ def note(sh, H, s):
         elif op == 'SRQ':
             sh.early_credit[oid] = sh.early_credit.get(oid, 0) + s['n']
         return
+    if op == 'SUB' and s.get('insub'):
+        if s['insub'][0] == 'SCN':
+            i['we_cancel'] = True
+            i['cancels'] = i.get('cancels', 0) + 1
+        else:
+            i['credit_out'] += s['insub'][1]
     if op == 'SRQ':
         i['credit_out'] += s['n']
     elif op == 'SCN':
